@@ -1,0 +1,10 @@
+//go:build verif && (!amd64 || purego || !gc)
+
+package argon2
+
+// VerifHasAsm reports whether the SSE assembly block function is compiled in.
+const VerifHasAsm = false
+
+// VerifProcessBlockSSE is unavailable in this build; it does nothing and
+// returns false.
+func VerifProcessBlockSSE(out, in1, in2 *[128]uint64, xor bool) bool { return false }
